@@ -1164,6 +1164,20 @@ where
                 done,
             } => {
                 let max_idx = new_entries.last().map(|e| e.index).unwrap_or(0);
+                // Entries below the truncation point that are still only in memory (appended, but the
+                // write notification has not been served yet) must reach the store before the
+                // replacement tail does: afterwards the watermarks jump to the new tail and the range
+                // in between would never be persisted, leaving an index gap on disk.
+                let written = this.durable_index.load(Ordering::Acquire).max(*pending_max);
+                if written + 1 < truncate_from
+                    && let Ok(unwritten) = this.get_entries_range(written + 1..=truncate_from - 1)
+                    && !unwritten.is_empty()
+                    && let Err(e) = this.log_store.persist_entries(unwritten).await
+                {
+                    error!("IOTask::ReplaceRange failed to persist the kept prefix (fatal): {e:?}");
+                    let _ = done.send(Err(e));
+                    return true;
+                }
                 let result = this.log_store.replace_range(truncate_from, new_entries).await;
                 if let Err(ref e) = result {
                     error!("IOTask::ReplaceRange failed (fatal): {e:?}");
